@@ -125,7 +125,59 @@ def canon_tl(tl):
     return out
 
 
-def impl_result(bdir, tracedir, sysd, events, lint=True, extra_opts=()):
+def pv_oracle(tracedir, sysd, events):
+    """C13: well-formedness and self-consistency of the Paraver output of an
+    accepted trace (independent parsers)."""
+    probs = []
+    clocks = [e[1] for e in events]
+    duration = (max(clocks) - min(clocks)) if clocks else 0
+    expect_rows = {
+        "thread": ["TH %d.%d" % (1 + pid % 7, tid) for (li, pid, tid) in sysd.threads],
+        "cpu": [("vCPU %d.*" % li) if virt else (" CPU %d.%d" % (li, phy)) for (li, idx, virt, phy) in sysd.cpus],
+    }
+    for name in ("thread", "cpu"):
+        try:
+            prv = Prv(os.path.join(tracedir, name + ".prv"))
+            pcf = read_pcf(os.path.join(tracedir, name + ".pcf"))
+            rows, nrows = read_rows(os.path.join(tracedir, name + ".row"))
+        except Exception as e:      # noqa: BLE001
+            probs.append(f"{name}: output unreadable: {e}")
+            continue
+        if prv.bad_lines:
+            probs.append(f"{name}.prv: malformed line {prv.bad_lines[0][:60]}")
+        last = None
+        for (t, row, ty, val) in prv.records:
+            if last is not None and t < last:
+                probs.append(f"{name}.prv: timestamp goes backwards {last} -> {t}")
+                break
+            last = t
+        want = len(expect_rows[name])
+        if prv.nrows != want:
+            probs.append(f"{name}.prv: header declares {prv.nrows} rows, the trace has {want}")
+        for (t, row, ty, val) in prv.records:
+            if not (1 <= row <= (prv.nrows or 0)):
+                probs.append(f"{name}.prv: row {row} outside 1..{prv.nrows}")
+                break
+        if prv.duration != duration:
+            probs.append(f"{name}.prv: header duration {prv.duration} != last event time {duration}")
+        if prv.records and prv.records[-1][0] > prv.duration:
+            probs.append(f"{name}.prv: record after the declared duration")
+        for (t, row, ty, val) in prv.records:
+            if ty not in pcf:
+                probs.append(f"{name}.prv: type {ty} not declared in {name}.pcf")
+                break
+        for (t, row, ty, val) in prv.records:
+            if ty in pcf and pcf[ty][1] and val != 0 and val not in pcf[ty][1]:
+                probs.append(f"{name}.prv: value {val} of state type {ty} ({pcf[ty][0]}) has no label")
+                break
+        if nrows != want or len(rows) != want:
+            probs.append(f"{name}.row: declares {nrows} rows and names {len(rows)}, expected {want}")
+        elif rows != expect_rows[name]:
+            probs.append(f"{name}.row: names {rows[:4]} differ from the documented order {expect_rows[name][:4]}")
+    return probs
+
+
+def impl_result(bdir, tracedir, sysd, events, lint=True, extra_opts=(), post=None):
     streams = build_streams(sysd, events)
     write_trace(tracedir, streams)
     rc, err = run_emu(bdir, tracedir, (["-l"] if lint else []) + list(extra_opts))
@@ -140,7 +192,10 @@ def impl_result(bdir, tracedir, sysd, events, lint=True, extra_opts=()):
             p = Prv(os.path.join(tracedir, name))
             for (row, ty), lst in p.timeline().items():
                 tl[(f, row, ty)] = lst
-    return v, fail_time, tl, err
+    extra = []
+    if v == "ok" and post is not None:
+        extra = post(tracedir, sysd, events)
+    return v, fail_time, tl, err, extra
 
 
 # CPU rows whose mux has a default: Paraver type -> default (idle = Resting)
@@ -163,7 +218,7 @@ def strip_base(tl):
 def compare(res, tag, sysd, events, mres, ires, types=None, desc=""):
     """Returns a list of disagreement strings."""
     mv, mft, mtl = mres
-    iv, ift, itl, err = ires
+    iv, ift, itl, err = ires[:4]
     dis = []
     if iv not in ("ok", "reject"):
         dis.append(f"ovniemu {iv}")
